@@ -9,3 +9,6 @@ from . import c_line_mapping  # noqa: F401
 from . import c_json  # noqa: F401
 from . import c_code_data  # noqa: F401
 from . import c_frame  # noqa: F401
+from . import c_blocks2  # noqa: F401
+from . import c_blocks3  # noqa: F401
+from . import c_cli  # noqa: F401
